@@ -82,6 +82,10 @@ def step (d : DS) (ws : List String) : DS × String :=
     ({ d with sys := { d.sys with srv := { d.sys.srv with key := r.1 } } },
       (if r.2 then ":1" else ":0") ++ " " ++ keyStr r.1 true)
   | ["get", c] => ev d (.newGet (c.toNat?.getD 0 + 1))
+  | ["fresh-race", _, _] =>
+    -- the two Gets were emitted as lines of their own; the side Get on another key and the late marker SET do
+    -- not touch the cache key: the state is the one after them
+    (d, stateStr (quiesce d.sys 200))
   | ["get-race", c, v] =>
     -- the new Get registers and reads; if it read a placeholder the holder's loader finishes right now
     let s1 := next d.sys (.newGet (c.toNat?.getD 0 + 1))
